@@ -352,12 +352,12 @@ impl<'a> Bfs<'a> {
         r matches Some(u) ==> old(self).queue@.len() > 0 && u == old(self).queue@[0] && u < old(self).digraph.ord() && final(self).fuel() == old(self).fuel() - 1 && final(self).fuel() >= 0,
         r is Some ==> exists|add: Seq<int>| vstep(old(self).has(), old(self).qv(), old(self).visited@, final(self).qv(), final(self).visited@, add),
         r is Some ==> forall|srcs: Set<int>| #[trigger] old(self).inv(srcs) ==> next_sem1(old(self).digraph, old(self).queue@, old(self).visited@, final(self).queue@, final(self).visited@, srcs),
-    @before `let u = self.queue.pop_front()?;`
+    @before `let u = self.queue.pop`
         proof {
             if self.queue@.len() == 0 { lemma_exhausted1(self.digraph, self.queue@, self.visited@); }
         }
         let ghost mut add: Seq<int> = Seq::empty();
-    @after `let u = self.queue.pop_front()?;`
+    @after `let u = self.queue.pop`
         proof {
             assert(self.queue@ =~= old(self).queue@.skip(1) + new_entries1(add));
             lemma_loop_init(self.digraph, u, self.visited@);
@@ -613,7 +613,7 @@ impl<'a> BfsDist<'a> {
         r matches Some(x) ==> old(self).queue@.len() > 0 && x == old(self).queue@[0] && x.0 < old(self).digraph.ord() && x.1 < old(self).digraph.ord() && final(self).fuel() == old(self).fuel() - 1 && final(self).fuel() >= 0,
         r is Some ==> exists|add: Seq<int>| bstep(old(self).has(), old(self).qv(), old(self).lv(), old(self).visited@, final(self).qv(), final(self).lv(), final(self).visited@, add),
         r is Some ==> forall|srcs: Set<int>| #[trigger] old(self).inv(srcs) ==> next_sem2(old(self).digraph, old(self).queue@, old(self).visited@, final(self).queue@, final(self).visited@, srcs),
-    @before `let (u, w) = self.queue.pop_front()?;`
+    @before `let (u, w) = self.queue.pop`
         proof {
             if self.queue@.len() == 0 { lemma_exhausted2(self.digraph, self.queue@, self.visited@); }
             lemma_ct_bounds(self.visited@);
